@@ -247,11 +247,18 @@ def timekernel_worker(_):
                 cands.append(('timekernel:exception', '%r in double_time_integrated_kernel' % (pr.exc, ), m))
             for sig, what, model in cands:
                 # a model of the path (the path fixes the order of a,b,c,d); prefer spread-out dyadic values
-                m = eng.dyadic_model(eng.real('s') >= Fraction(1, 2), bits=3) or eng.feasible(eng.real('s') > 0)[1]
-                vals = {k: str(v) for k, v in eng.model_inputs(m).items() if k in 'abcds' and v is not None}
-                rp = dict(kind='timekernel', values=vals)
+                # several pairwise different witnesses: a wrong term can coincide with the right one when the two time
+                # steps are equal, which is what the first model tends to look like
+                ms = eng.diverse_models(eng.real('s') >= Fraction(1, 2), n=6, bits=4) or [eng.feasible(eng.real('s') > 0)[1]]
+                rp, ok, vals = None, False, None
+                for m in ms:
+                    vals = {k: str(v) for k, v in eng.model_inputs(m).items() if k in 'abcds' and v is not None}
+                    rp = dict(kind='timekernel', values=vals)
+                    if replay(rp):
+                        ok = True
+                        break
                 res['violations'].append(dict(signature=sig, what='%s [order of instants: %s]' % (what, vals),
-                                              replay=rp, reproduced=replay(rp)))
+                                              replay=rp, reproduced=ok))
             cands.clear()
             if len(res['samples']) < 2 and pr.status == 'ok':
                 m = eng.feasible(True)[1]
